@@ -77,7 +77,7 @@ def run(ctx):
     rng = ctx.sub_rng("u")
     uni = universe()
     ctx.count("small_universe_size", len(uni))
-    base = rng.sample(uni, 1500 if quick else 5000)
+    base = rng.sample(uni, 4000 if quick else 8000)
     strings = []
     for v in base:
         strings.append(ref.normal(v))
@@ -85,7 +85,7 @@ def run(ctx):
             strings.append(ref.spell(v, rng))
     strings = sorted(set(strings))
     strs, bad = cmpcommon.all_pairs(ctx, "pep440", strings, key, "small_universe")
-    large = random_large(rng, 800 if quick else 3000)
+    large = random_large(rng, 2500 if quick else 6000)
     lstr = []
     for v in large:
         lstr.append(ref.normal(v))
